@@ -9,13 +9,26 @@ spec/trace/KeyProviderTrace.tla to validate everything the real code returned
 (monitor = property section -> VIOLATION; strict = explained by Current/Get ->
 DRIFT).  The concurrent driver is additionally built with -race.
 
+The statement is about "the key handed out for sealing new cookies": besides the
+provider's own calls, (4) the clause SealedWithCurrent / SealedLifetime of the
+property section is evaluated on the cookies the real servers issue - key exchange
+server, IP listener (core/server/server_ip.go) and SCION listener
+(core/server/server_scion.go) sharing one Provider, driven by harness/c11 under
+TLC-generated, rotation-heavy schedules of spec/mc/NtsCookiesGen.tla (associations
+that live across one, two and more key rotations with requests in between; foreign
+requests under every key the provider still holds) - by
+spec/trace/NtsCookiesTrace.tla with NtsCookiesTrace_c12.cfg: every cookie of every
+recorded reply names a key generated no more than the renewal interval before the
+reply was sent, and valid for two more days.
+
 Self-test knob: VERIF_C12_CORRUPT=ok|nb|id corrupts one field of one recorded
 return before validation (negative control of the monitor; expect exit 1).
 """
-import os, re, shutil, threading
+import os, re, shutil, threading, collections
 from concurrent.futures import ThreadPoolExecutor
 
 import vlib
+import c11 as c11chk      # trace plumbing of the cookie-lifecycle check (same driver, same trace module)
 
 CHUNK = 110000      # records per TLC trace-validation run (cut at behaviour boundaries)
 DAY = 86400
@@ -229,10 +242,100 @@ def _classify(ctx, rc, out, what):
     return None
 
 
+def _listeners(ctx):
+    """(4) the servers' use of the provider: which key the cookies of every reply are sealed with."""
+    q = ctx.quick
+    num = 60 if q else 400
+    g = ctx.tlc("NtsCookiesGen", "NtsCookies_genrot.cfg", workers=1, timeout=600, simulate="num=%d" % num,
+                depth=400, tag="genrot")
+    cases = ctx.emitted(g["out"])
+    if len(cases) < num // 2:
+        raise vlib.Inconclusive("rotation schedule generator produced only %d behaviours" % len(cases))
+    gstat = collections.Counter()
+    for b in cases:
+        gstat.update(b.pop("stat"))
+    lacking = [k for k in ("oldserve", "span1", "span2", "oldprobe") if not gstat[k]]
+    if lacking:
+        raise vlib.Inconclusive("generated rotation schedules never exercise: %s (%s)" % (lacking, dict(gstat)))
+    cp = ctx.path("cases_srv.ndjson")
+    vlib.write_ndjson(cp, cases)
+    tp, out = ctx.godriver("c11", "TestC11", out_name="trace_srv.ndjson", cases=cp, timeout=420 if q else 1200,
+                           env={"VERIF_C11_LANES": os.environ.get("VERIF_C11_LANES", "12" if q else "24")})
+    events = vlib.read_ndjson(tp)
+    cfg, events = events[0], events[1:]
+    if cfg.get("ev") != "cfg":
+        raise vlib.Inconclusive("listener trace does not start with the cfg record")
+    if os.environ.get("VERIF_C12_CORRUPT") == "seal":
+        for e in events:   # negative control: a reply cookie renamed to the previous key
+            if e["ev"] == "rep" and e["cookies"] and e["prov"]["cur"] >= 3 and len(e["prov"]["keys"]) >= 3:
+                e["cookies"][0]["key"] = e["prov"]["keys"][0]["id"]
+                ctx.notes.append("SELFTEST: one recorded reply cookie renamed to the oldest key held")
+                break
+        else:
+            raise vlib.Inconclusive("VERIF_C12_CORRUPT=seal: no suitable record")
+    behs = c11chk._behaviours(events)
+    val = c11chk._Validator(ctx)
+    issued = [e for e in events if e["ev"] in ("rep", "probe", "rekey") and e.get("cookies")]
+    by = collections.Counter()
+    for e in issued:
+        where = {"rekey": "ke", "rep": "ntp ip"}.get(e["ev"]) or "probe " + e["tr"]
+        by[where] += 1
+        cur = e["prov"]["cur"]
+        if e["ev"] == "probe" and e["ck"] != cur:
+            by[where + " request under an older key"] += 1
+    # requests of the real client whose cookie was sealed under a key that is not the current one any more
+    for b in behs:
+        last = None
+        for e in b:
+            if e["ev"] == "req" and not e["fn"]:
+                last = e
+            elif e["ev"] == "rep" and last is not None and last["cookie"]["key"] != e["prov"]["cur"]:
+                by["ntp ip request under an older key"] += 1
+    nviol = 0
+    sigs = {}
+    for part in c11chk._chunks(behs):
+        evs = [cfg] + [e for b in part for e in b]
+        outp = val.run("NtsCookiesTrace_c12.cfg", evs)
+        for clause, pos in c11chk._marks(outp, "VIOL"):
+            e = evs[pos - 1]
+            where = {"rekey": "key-exchange", "rep": "reply ip"}.get(e["ev"]) or "reply " + e.get("tr", "?")
+            sig = "C12 %s %s" % (clause, where)
+            nviol += 1
+            if sig in sigs:
+                continue
+            s0 = pos - 1
+            while s0 > 1 and evs[s0]["ev"] != "reset":
+                s0 -= 1
+            keys = {k["id"]: k for k in e["prov"]["keys"]}
+            worst = max((e["prov"]["now"] - keys[c["key"]]["nb"] for c in e["cookies"] if c["key"] in keys), default=-1)
+            sigs[sig] = ("%s: a cookie of a recorded %s names a key that is not one Current() may hand out at that "
+                         "instant or does not stay valid for two more days: oldest key named was generated between %d and "
+                         "%d x 12 h before the cookie was issued (behaviour %d; provider, in 12 h units: %s; cookie keys %s)"
+                         % (clause, where, worst, worst + 1, e["b"], e["prov"], sorted({c["key"] for c in e["cookies"]})),
+                         {"cfg": cfg, "events": evs[s0:pos]})
+    need = ("ntp ip", "ntp ip request under an older key", "probe ip", "probe scion",
+            "probe ip request under an older key", "probe scion request under an older key", "ke")
+    if not sigs and any(not by[k] for k in need):
+        raise vlib.Inconclusive("listener coverage incomplete: %s" % dict(by))
+    for sig, (what, rp) in sorted(sigs.items()):
+        ctx.violation(sig, what, rp)
+    ctx.notes.append(
+        "sealing key of issued cookies: %d TLC-generated rotation schedules (spec side: %d requests served under a cookie of "
+        "an older key, %d one rotation and %d two or more rotations after the association's key exchange with a request in "
+        "between, %d foreign requests under an older key); recorded: %s; %d clause failures"
+        % (len(cases), gstat["oldserve"], gstat["span1"], gstat["span2"], gstat["oldprobe"], dict(sorted(by.items())), nviol))
+    ctx.log(ctx.notes[-1])
+    return dict(behaviours=len(behs), events=len(events), replies_judged=len(issued), by=dict(by), spec_side=dict(gstat))
+
+
 def run(ctx):
     q = ctx.quick
     ctx.specdir()
+    vlib.ensure_harness()
+    if vlib.REPO != "/repo":
+        vlib.alt_modfile()
     pool = ThreadPoolExecutor(max_workers=4)
+    lst = pool.submit(_listeners, ctx)
     # 1. design level: the property section decided on the specification.
     #    (at most 8 TLC workers are busy at any time, all runs together)
     if q:
@@ -249,6 +352,7 @@ def run(ctx):
             rs = f.result()
             for r in (rs if isinstance(rs, list) else [rs]):
                 ctx.log("TLC %s: %d distinct states, %d generated, %.0fs" % (r["cfg"], r["distinct"], r["generated"], r["wall_s"]))
+        ctx.cov["listeners"] = lst.result()
     finally:
         pool.shutdown(wait=True, cancel_futures=True)
     return nval
